@@ -303,7 +303,17 @@ func init() {
 			ex.allocLen, ex.allocK, ex.allocC = ex.argInt(args[0]), ex.argInt(args[1]), ex.argInt(args[2])
 			return nil
 		},
+		z + "ClockExact": func(ex *Exec, fn *ssa.Function, args []Value, site token.Pos) Value {
+			ex.clock = args[0].(*Term)
+			ex.clockExact = true
+			ex.stub("clock: exact virtual clock (advances by each sleep's duration and by 1 ms per reading)")
+			return nil
+		},
 		z + "ClockNow": func(ex *Exec, fn *ssa.Function, args []Value, site token.Pos) Value {
+			if ex.clockExact {
+				ex.clock = ex.tc.Bin(OAdd, ex.clock, ex.tc.Const(64, 1)) // reading the clock takes time
+				return ex.clock
+			}
 			d := ex.fresh("clk", 64)
 			// non-decreasing, bounded step (< 2^40 ms) so sums cannot wrap
 			ex.assume(ex.tc.Cmp(OUlt, d, ex.tc.Const(64, 1<<40)), "")
@@ -316,6 +326,10 @@ func init() {
 				ex.clockMin = nil
 			}
 			return ex.clock
+		},
+		z + "ClockStart": func(ex *Exec, fn *ssa.Function, args []Value, site token.Pos) Value {
+			ex.clock = args[0].(*Term)
+			return nil
 		},
 		z + "OnWait": func(ex *Exec, fn *ssa.Function, args []Value, site token.Pos) Value {
 			ex.waitBudget = int(ex.argInt(args[0]))
@@ -458,6 +472,29 @@ func init() {
 			return nil
 		},
 
+		// ---- sync/atomic.Value: one interface-typed ghost cell per Value ----
+		"(*sync/atomic.Value).Load": func(ex *Exec, fn *ssa.Function, a []Value, site token.Pos) Value {
+			if v, ok := ex.ghost["atomic.Value "+ex.cellName(a[0].(Ptr))]; ok {
+				return v
+			}
+			return IfaceV{}
+		},
+		"(*sync/atomic.Value).Store": func(ex *Exec, fn *ssa.Function, a []Value, site token.Pos) Value {
+			if iv, ok := a[1].(IfaceV); ok && iv.t == nil {
+				ex.rtPanic("sync/atomic: store of nil value into Value")
+			}
+			ex.ghost["atomic.Value "+ex.cellName(a[0].(Ptr))] = a[1]
+			return nil
+		},
+		"(*sync/atomic.Value).Swap": func(ex *Exec, fn *ssa.Function, a []Value, site token.Pos) Value {
+			k := "atomic.Value " + ex.cellName(a[0].(Ptr))
+			old, ok := ex.ghost[k]
+			ex.ghost[k] = a[1]
+			if !ok {
+				return IfaceV{}
+			}
+			return old
+		},
 		// ---- sync/atomic as plain memory on one logical thread ----
 		"sync/atomic.LoadInt32": atomicLoad, "sync/atomic.LoadInt64": atomicLoad, "sync/atomic.LoadUint32": atomicLoad, "sync/atomic.LoadUint64": atomicLoad, "sync/atomic.LoadPointer": atomicLoad, "sync/atomic.LoadUintptr": atomicLoad,
 		"sync/atomic.StoreInt32": atomicStore, "sync/atomic.StoreInt64": atomicStore, "sync/atomic.StoreUint32": atomicStore, "sync/atomic.StoreUint64": atomicStore, "sync/atomic.StorePointer": atomicStore, "sync/atomic.StoreUintptr": atomicStore,
